@@ -400,7 +400,13 @@ func c01Structure(r *ev.Run, id string, sc *c01Scenario, round int, corr int64, 
 		cls += ",peer-clamped"
 	}
 	r.Class(cls)
-	if corr < lo-1 || corr > hi+1 {
+	// the code compares and clamps in float64 (as the property's bound is a float product): above
+	// 2^53 ns the clamped and the unclamped value are distinguishable only up to one float64 step
+	tol := func(v int64) int64 {
+		a := math.Abs(float64(v))
+		return 1 + int64(math.Nextafter(a, math.Inf(1))-a)
+	}
+	if corr < lo-tol(lo) || corr > hi+tol(hi) {
 		r.Violation("sync.Run|wrong-value:correction is not the stated combination of the bounded contributions|"+cls, id,
 			w(map[string]any{"round": round, "corr": corr, "expected_lo": lo, "expected_hi": hi}))
 	}
